@@ -45,7 +45,28 @@ class Ref:
         N = self.N
         kk = min(k, N - 1)
         z = tr.Zc[k] if getattr(tr, 'Zc', None) else None
-        return leaf_at(tr, kk, tr.X[k], tr.tc[k], None, z=z, kplus=k)
+        return leaf_at(tr, kk, tr.X[k], tr.tc[k], None, z=z, q=self.quad_at_node(k), kplus=k)
+
+    def quad_at_node(self, k):
+        """declared quadrature states at control node k: the scheme's own quadrature accumulated from t0"""
+        if not self.spec.quads:
+            return None
+        if not hasattr(self, '_qnodes'):
+            tr, dom = self.tr, self.dom
+            nq = len(self.spec.quads)
+            out = [[dom.const(0)] * nq]
+            if self.cfg.method == 'DC':
+                run = colloc.quadrature(tr, self.spec.quads)
+                for kk_ in range(self.N):
+                    out.append(list(run[(kk_ + 1) * self.M - 1]))
+            else:
+                acc = [dom.const(0)] * nq
+                for kk_ in range(self.N):
+                    _, qs = propagate(tr, kk_, tr.X[kk_], quads=self.spec.quads)
+                    acc = [a_ + q_ for a_, q_ in zip(acc, qs[-1])]
+                    out.append(list(acc))
+            self._qnodes = out
+        return self._qnodes[k]
 
     def at_node(self, e, k):
         if k < 0 or k > self.N:
